@@ -14,10 +14,13 @@ m = re.search(r"crates/[a-z-]+/tests/demo_[a-z0-9_]+\.rs", notes)
 if not m:
     print("cannot find demo destination in notes"); sys.exit(2)
 dest = m.group(0)
-m2 = re.search(r"cargo test ([^`\n]*--test demo_[a-z0-9_]+[^`\n]*)", notes)
-if not m2:
-    print("cannot find demo command in notes"); sys.exit(2)
-args = m2.group(1).strip().rstrip(".").split()
+if "--args" in sys.argv:
+    args = sys.argv[sys.argv.index("--args") + 1].split()
+else:
+    m2 = re.search(r"cargo test ([^`\n]*--test demo_[a-z0-9_]+[^`\n]*)", notes.replace("\\\n", " "))
+    if not m2:
+        print("cannot find demo command in notes"); sys.exit(2)
+    args = m2.group(1).strip().rstrip(".").split()
 args = [a for a in args if not a.startswith("2>") and a not in ("|", "tail", "&&")]
 env = dict(os.environ, CARGO_TARGET_DIR=f"{wt}/target", CARGO_NET_OFFLINE="true")
 
